@@ -108,3 +108,32 @@ def routeFaultsAux (g : SG) : List Nat → List (List Nat × List Nat) → List 
 /-- all routing faults of the staged fit of a model -/
 def routeFaults (g : SG) (nodes : List Nat) : List RouteFault :=
   routeFaultsAux g [] (splitStages g (offlineStages g nodes).1 [])
+
+/-! ### the relations between consecutive stages (`_get_required_nodes`, `_get_links`): which node of a stage must
+hand its states to which nodes of the next stage -/
+
+def childrenOf (g : SG) (nodes : List Nat) (n : Nat) : List Nat :=
+  nodes.filter (fun c => (g.parents c).contains n)
+
+/-- `_get_links(previous, nexts, children)`: for every node of `previous` that is not in `nexts`, its children in
+    `nexts` (entries without children are dropped) -/
+def getLinks (g : SG) (nodes previous nexts : List Nat) : List (Nat × List Nat) :=
+  previous.filterMap fun n =>
+    if nexts.contains n then none
+    else
+      let cs := (childrenOf g nodes n).filter (fun c => nexts.contains c)
+      if cs.isEmpty then none else some (n, cs)
+
+/-- `_get_required_nodes`: one relation per stage; stage i < last is linked to stage i+1, the last stage links its
+    forward nodes (non-offline, or offline and fitted in an earlier stage) to the offline nodes it trains -/
+def requiredAux (g : SG) (nodes : List Nat) : List (List Nat) → List Nat → List (List (Nat × List Nat))
+  | [], _ => []
+  | [lastSub], fitted =>
+    let nexts := lastSub.filter (fun n => g.offline n && !fitted.contains n)
+    let currs := lastSub.filter (fun n => !g.offline n || fitted.contains n)
+    [getLinks g nodes currs nexts]
+  | cur :: nxt :: rest, fitted =>
+    getLinks g nodes cur nxt :: requiredAux g nodes (nxt :: rest) (cur.filter g.offline ++ fitted)
+
+def required (g : SG) (nodes : List Nat) : List (List (Nat × List Nat)) :=
+  requiredAux g nodes (offlineStages g nodes).1 []
